@@ -128,6 +128,36 @@ for _uf in ("multiply", "divide"):
     X("numpy." + _uf, "c07:same-slot", lambda g: [g.a(), g.a(lo=1, hi=5)], tags=PR, shapes=_USHAPES, params={"x1", "x2"})
 
 
+# multiply/divide in every call form (out= buffer, .outer, one 0-d operand, in-place operators with a quantity on the right), each
+# with the operands in independent slots (A, B) and in one slot (A, A).  With C07's 'partial' families (A and B commensurable) and
+# compound 'mixed' families (one slot in two sizes of a fractional-power / alias unit) the two units cancel only partly.
+import operator as _operator
+
+
+def _md(g, slot2, second_shape=None, float_first=False):
+    a = g.a(dtype="f8" if float_first and g.dtype.kind in "iu" else None)
+    return a, Q(g.raw(a.data.shape if second_shape is None else second_shape, 1, 5, a.data.dtype), slot2)
+
+
+for _uf in ("multiply", "divide"):
+    _f = getattr(np, _uf)
+    for _s2, _sfx in (("B", ""), ("A", "+same-slot")):
+        X("numpy." + _uf, "out" + _sfx, lambda g, u=_uf, s2=_s2: (lambda a, b: ([a, b], {"out": _outbuf(u, a, b)}))(*_md(g, s2)), tags=PR | {"out"}, shapes=("1d", "2d"),
+          params={"x1", "x2", "out"})
+        X("numpy." + _uf, "c07:outer" + _sfx, lambda g, s2=_s2: (g.need("1d") or list(_md(g, s2, (3,)))), tags=PR, shapes=("1d",), params={"x1", "x2", "outer"},
+          invoke=lambda a, k, f=_f: f.outer(*a, **k))
+        X("numpy." + _uf, "c07:scalar-second" + _sfx, lambda g, s2=_s2: list(_md(g, s2, ())), tags=PR, shapes=("1d", "2d"), params={"x1", "x2"})
+        X("numpy." + _uf, "c07:scalar-first" + _sfx, lambda g, s2=_s2: (lambda a, b: [Q(b.data, "A"), Q(a.data, s2)])(*_md(g, s2, ())), tags=PR, shapes=("1d", "2d"), params={"x1", "x2"})
+for _n, _fn in (("__imul__", _operator.imul), ("__itruediv__", _operator.itruediv)):
+    for _s2, _sfx in (("B", ""), ("A", "+same-slot")):
+        X("ndarray." + _n, "c07:quantity" + _sfx, lambda g, s2=_s2, n=_n: list(_md(g, s2, float_first=(n == "__itruediv__"))), kind="op", tags={"mutator", "product"}, shapes=_USHAPES,
+          invoke=lambda a, k, f=_fn: f(*a))
+        X("ndarray." + _n, "c07:quantity-0d" + _sfx, lambda g, s2=_s2, n=_n: list(_md(g, s2, (), float_first=(n == "__itruediv__"))), kind="op", tags={"mutator", "product"}, shapes=("1d", "2d"),
+          invoke=lambda a, k, f=_fn: f(*a))
+for _n, _fn in (("__mul__", _operator.mul), ("__truediv__", _operator.truediv)):
+    X("ndarray." + _n, "c07:same-slot", lambda g: list(_md(g, "A")), kind="op", tags=PR, shapes=_USHAPES, invoke=lambda a, k, f=_fn: f(*a))
+
+
 def _two(g, lo=-9):
     g.real_only()
     if len(g.dims()) < 1 or 0 in g.dims():
@@ -150,3 +180,28 @@ _COMPOSE = {
 for _n, _fn in _COMPOSE.items():
     _t = IDX if any(c in _n for c in "<>=") else (PR if "*" in _n else SD)
     X("c07.reduce-then-combine", _n, _two, kind="op", tags=_t, shapes=("1d", "2d"), invoke=lambda a, k, f=_fn: f(*a))
+
+
+# combine-then-reduce: functions built on a product / quotient of two quantities (np.mean(a/b) ...), operands in independent slots
+# and in one slot
+def _two_pos(g, slot2):
+    g.real_only()
+    if len(g.dims()) < 1 or 0 in g.dims():
+        raise _Skip("needs elements")
+    return [g.a(), g.a(slot2, lo=1, hi=5)]
+
+
+_COMBINE = {
+    "mean(x/y)": lambda x, y: np.mean(x / y),
+    "sum(x/y)": lambda x, y: np.sum(x / y),
+    "(x/y).max()": lambda x, y: (x / y).max(),
+    "cumsum(x/y)": lambda x, y: np.cumsum(x / y, axis=-1),
+    "mean(x*y)": lambda x, y: np.mean(x * y),
+    "sum(x)/sum(y)": lambda x, y: np.sum(x) / np.sum(y),
+    "x/y.mean()": lambda x, y: x / y.mean(),
+    "sqrt(x/y)": lambda x, y: np.sqrt(np.abs(x) / y),
+    "std(x)/mean(y)": lambda x, y: np.std(x) / np.mean(y),
+}
+for _n, _fn in _COMBINE.items():
+    for _s2, _sfx in (("B", ""), ("A", "+same-slot")):
+        X("c07.combine-then-reduce", _n + _sfx, lambda g, s2=_s2: _two_pos(g, s2), kind="op", tags=PR, shapes=("1d", "2d"), invoke=lambda a, k, f=_fn: f(*a))
